@@ -6,8 +6,9 @@ from vlib import *
 # every run: dict(args for `harness walk`) ; the LTS comes from MC_Tree_small unless stated
 
 
-def W(cfg, mode, names='ascii', b=1, frac=1.0, walks=0, length=0, split=False, light=False, lts='small', max_events=10**9):
-    return dict(kind='walk', cfg=cfg, mode=mode, names=names, b=b, frac=frac, walks=walks, len=length, split=split, light=light, lts=lts, max_events=max_events)
+def W(cfg, mode, names='ascii', b=1, frac=1.0, walks=0, length=0, split=False, light=False, lts='small', max_events=10**9, lower_only=False):
+    return dict(kind='walk', cfg=cfg, mode=mode, names=names, b=b, frac=frac, walks=walks, len=length, split=split, light=light, lts=lts,
+                max_events=max_events, lower_only=lower_only)
 
 
 def group_runs(g, tier):
@@ -26,6 +27,9 @@ def group_runs(g, tier):
             W('phys', 'random', names='multi', b=8193, walks=6 if q else 100, length=30),
             W('phys', 'random', names='dotted', walks=10 if q else 300, length=40),
             W('phys', 'random', names='prefix', walks=10 if q else 300, length=40),
+            W('mem', 'edges', lts='deep', frac=0.15 if q else 1.0),
+            W('mem', 'random', lts='deep', names='prefix', walks=15 if q else 500, length=40),
+            W('phys', 'edges', lts='deep', frac=0.03 if q else 1.0),
         ]
         if not q:
             runs += [W('mem', 'random', names='ascii', b=65537, walks=40, length=30),
@@ -55,16 +59,27 @@ def group_runs(g, tier):
             W('ovl(mem,phys)', 'random', names='dotted', walks=6 if q else 300, length=40, split=True),
             W('ovl(alt(zu,mem),mem)', 'random', names='prefix', walks=8 if q else 300, length=40, split=True),
             W('ovl(ovl(mem,mem),mem)', 'random', names='multi', walks=8 if q else 300, length=40, split=True),
+            W('ovl(mem,mem)', 'edges', lts='deep', frac=0.08 if q else 1.0, split=True),
+            W('ovl(mem,mem,mem)', 'random', lts='deep', walks=15 if q else 1000, length=40, split=True),
         ]
         if not q:
             runs += [W('ovl(mem,mem,mem,mem)', 'random', walks=500, length=40, split=True),
                      W('ovl(phys,mem)', 'random', walks=300, length=40, split=True),
                      W('ovl(phys,phys)', 'edges', frac=0.2, split=True)]
         return runs
+    if g == 'ovl_cycles':
+        runs = []
+        for cfg, n in (('ovl(mem,mem)', 60), ('ovl(mem,mem,mem)', 30), ('ovl(mem,mem,mem,mem)', 15), ('ovl(phys,phys)', 10), ('ovl(mem,alt(zu,mem))', 10)):
+            runs.append(W(cfg, 'cycles', lts='deep', walks=n if q else n * 40, split=True, lower_only=True))
+            runs.append(W(cfg, 'cycles', lts='small', names='prefix', walks=n // 2 if q else n * 20, split=True, lower_only=True))
+        runs.append(W('ovl(mem,mem)', 'cycles', lts='deep', names='dotted', walks=20 if q else 800, split=True))
+        return runs
+    if g == 'join':
+        return [dict(kind='join', inst='MC_Join_q' if q else 'MC_Join_t', random=3000 if q else 200000, chains=3000 if q else 100000, tspec='Trace_Join')]
     raise ToolError('unknown group ' + g)
 
 
-LTS_INSTANCES = {'small': ('MC_Tree_small', 'MC_Tree_small')}
+LTS_INSTANCES = {'small': ('MC_Tree_small', 'MC_Tree_small'), 'deep': ('MC_Tree_deep', 'MC_Tree_deep')}
 
 
 def run_group(g, tier, seed, use_cache=True):
@@ -83,27 +98,39 @@ def run_group(g, tier, seed, use_cache=True):
     runs = group_runs(g, tier)
     mcs = {}
     ltsfiles = {}
-    for r in runs:
-        inst = r.get('lts', 'small')
-        if inst not in ltsfiles:
-            mod, cfg = LTS_INSTANCES[inst]
-            mc = run_mc(mod, cfg)
-            if not mc['ok']:
-                raise ToolError('model checking of %s failed:\n%s' % (mod, mc.get('tail', '')))
-            mcs[inst] = mc
-            ltsfiles[inst] = ensure_lts(mod, cfg + '_emit')
     summaries = []
     for i, r in enumerate(runs):
         out = '%s/traces/r%02d' % (gdir, i)
-        args = ['walk', '--lts', ltsfiles[r['lts']], '--cfg', r['cfg'], '--mode', r['mode'], '--names', r['names'], '--b', r['b'],
-                '--frac', r['frac'], '--seed', seed * 1000 + i, '--out', out, '--threads', 8, '--walks', r['walks'], '--len', r['len'],
-                '--max-events', r['max_events']]
-        if r['split']:
-            args.append('--split')
-        if r['light']:
-            args.append('--light')
         t1 = time.time()
-        s = harness(args)
+        if r['kind'] == 'walk':
+            inst = r.get('lts', 'small')
+            if inst not in ltsfiles:
+                mod, cfg = LTS_INSTANCES[inst]
+                mc = run_mc(mod, cfg)
+                if not mc['ok']:
+                    raise ToolError('model checking of %s failed:\n%s' % (mod, mc.get('tail', '')))
+                mcs[inst] = mc
+                ltsfiles[inst] = ensure_lts(mod, cfg + '_emit')
+            args = ['walk', '--lts', ltsfiles[r['lts']], '--cfg', r['cfg'], '--mode', r['mode'], '--names', r['names'], '--b', r['b'],
+                    '--frac', r['frac'], '--seed', seed * 1000 + i, '--out', out, '--threads', 8, '--walks', r['walks'], '--len', r['len'],
+                    '--max-events', r['max_events']]
+            if r['split']:
+                args.append('--split')
+            if r['light']:
+                args.append('--light')
+            if r.get('lower_only'):
+                args.append('--lower-only')
+            s = harness(args)
+        elif r['kind'] == 'join':
+            mc = run_mc(r['inst'], r['inst'])
+            if not mc['ok']:
+                raise ToolError('model checking of %s failed:\n%s' % (r['inst'], mc.get('tail', '')))
+            mcs[r['inst']] = mc
+            cases = ensure_lts(r['inst'], r['inst'] + '_emit', tags=('CASE',))
+            s = harness(['join', '--cases', cases, '--out', out, '--seed', seed, '--random', r['random'], '--chains', r['chains']])
+            s.update(cfg='join', mode=r['inst'], names='tokens', b=0)
+        else:
+            raise ToolError('unknown run kind ' + r['kind'])
         s['run'] = i
         s['wall_s'] = round(time.time() - t1, 1)
         summaries.append(s)
@@ -112,24 +139,39 @@ def run_group(g, tier, seed, use_cache=True):
     events = 0
     shards = 0
     twall = 0
-    # validate all shards of all runs in one pool
+    # validate all shards of all runs (one pool per trace specification)
     alldir = gdir + '/all'
-    os.makedirs(alldir, exist_ok=True)
+    v = []
+    st = {'shards': 0, 'events': 0, 'tlc_wall_s': 0}
+    byspec = {}
     for i, r in enumerate(runs):
-        for f in glob.glob('%s/traces/r%02d/*.ndjson' % (gdir, i)):
-            os.rename(f, '%s/r%02d-%s' % (alldir, i, os.path.basename(f)))
-    v, st = validate_traces(alldir)
+        byspec.setdefault(r.get('tspec', 'Trace_Tree'), []).append(i)
+    for tspec, idxs in byspec.items():
+        d = '%s/%s' % (alldir, tspec)
+        os.makedirs(d, exist_ok=True)
+        for i in idxs:
+            for f in glob.glob('%s/traces/r%02d/*.ndjson' % (gdir, i)):
+                os.rename(f, '%s/r%02d-%s' % (d, i, os.path.basename(f)))
+        v1, st1 = validate_traces(d, spec=tspec)
+        v += v1
+        for k in st:
+            st[k] = round(st[k] + st1[k], 1)
     for x in v:
         x['group'] = g
         x['run'] = int(os.path.basename(x['trace'])[1:3])
     viols = v
     samples = []
-    first = sorted(glob.glob(alldir + '/*.ndjson'))
+    first = sorted(glob.glob(alldir + '/*/*.ndjson'))
     if first:
         with open(first[0]) as f:
             ops = []
             for n, line in enumerate(f):
                 e = json.loads(line)
+                if e['ev'] in ('join', 'chain'):
+                    ops.append({k: e[k] for k in e if k in ('ev', 'base', 'arg', 'steps')} | {'sync': e['sync'].get('path'), 'c': e['sync']['c']})
+                    if len(ops) > 5:
+                        break
+                    continue
                 if e['ev'] == 'init':
                     if ops:
                         break
@@ -140,7 +182,7 @@ def run_group(g, tier, seed, use_cache=True):
                     break
             samples.append(ops)
     keep = set(x['trace'] for x in viols)
-    for f in glob.glob(alldir + '/*'):
+    for f in glob.glob(alldir + '/*/*'):
         if f.endswith('.ndjson') and f not in keep:
             os.remove(f)
         if f.endswith('.out') and f[:-4] not in keep:
@@ -165,6 +207,8 @@ PROPS = {
     'C07': dict(groups=['alt']),
     'C08': dict(groups=['ovl']),
     'C09': dict(groups=['ovl']),
+    'C06': dict(groups=['join']),
+    'C10': dict(groups=['ovl_cycles', 'ovl']),
 }
 
 
@@ -241,6 +285,11 @@ _LVL = ('TLC explores the complete state space of the bounded Level-A model (eve
 _NOTE = ('Trusted: TLC + community modules; the harness observer/concretisation tables; bounded universe (6 paths, depth 2, contents <= 2 symbols) with '
          'name maps (ascii, prefix-sharing, dotted, multi-byte, long) and block sizes up to 65537 as homomorphic concretisations.')
 MANIFEST_TEXT = {
+    'C06': dict(level='TLC checks JoinImpl (the transcription of join_internal) = Resolve (declarative lexical resolution) and the canonical-form, root-clamp, absolute-restart, '
+                      'parent/filename and composition laws for ALL argument strings up to the length bound over {/, ., letter, multi-byte letter} x 4 bases, emits every case, and the harness '
+                      'executes each case (plus seeded random strings up to 64 tokens and join/parent/root chains) on VfsPath and AsyncVfsPath; TLC validates every recorded result against Level A.',
+                note='Trusted: TLC; token concretisation tables (3 variants with 1-4 byte characters). Exhaustive to length 6 (quick) / 8 (model) and 7 (replayed) in thorough.',
+                technique='TLA+ exhaustive enumeration of join arguments (MC_Join) + TLC trace validation (Trace_Join)', ref='DESIGN.md 6 C06'),
     'C01': dict(level=_LVL + 'Conjuncts class/value/effect: outcome class in the allowed set and the full observation equals the tree Level A prescribes, after every call.',
                 note=_NOTE, technique='TLA+ Level-A model checking + LTS replay + TLC trace validation', ref='DESIGN.md 6 C01'),
     'C02': dict(level=_LVL + 'MemoryFS and PhysicalFS are both judged by the same deterministic Level A on the same LTS edges, so agreement follows on the specified regime.',
@@ -255,6 +304,11 @@ MANIFEST_TEXT = {
                 note=_NOTE, technique='TLA+ trace validation (LowerUnchanged, ObserversPure) over recorded layer snapshots and call logs', ref='DESIGN.md 6 C08'),
     'C09': dict(level=_LVL + 'The init event carries the layer snapshots; TLC computes Merge(layers) and judges the overlay by the same Level-A actions from then on.',
                 note=_NOTE, technique='TLA+ Merge(layers) + Level-A trace validation on pre-populated overlays', ref='DESIGN.md 6 C09'),
+    'C10': dict(level=_LVL + 'A dedicated driver removes entries that live in lower layers (file, emptied directory, remove_dir_all of a subtree), performs unrelated operations, '
+                're-creates the path (changing its type) and repeats three cycles on 2-4 layers; because the observation covers the whole universe and records unknown listed names as foreign, '
+                'a resurrected entry, a non-empty re-created directory or a visible marker fails the effect/observers conjuncts.',
+                note=_NOTE + ' Names ending in _wo and .whiteout are never generated (reserved by the overlay, excluded by the property).',
+                technique='TLA+ Level-A trace validation of removal/re-creation cycles over pre-populated lower layers', ref='DESIGN.md 6 C10'),
     'C12': dict(level=_LVL + 'Conjunct errpath: every error of every call and observer names a path of the caller namespace related to the call; pinned classes are part of conjunct class.',
                 note=_NOTE, technique='TLA+ ErrPathOK on every failing call/observer of every trace event', ref='DESIGN.md 6 C12'),
     'C13': dict(level=_LVL + 'Every harness call runs under catch_unwind; panic is an outcome class no trace action accepts.',
